@@ -624,6 +624,45 @@ func c20Script(r *gen.Rng, o *out.W) {
 	o.Sample("C20 " + desc)
 }
 
+// long request/response runs on one connection (C20): more requests of each kind than the broker has tokens
+// (ClientParallelSubscribes / ClientParallelPublishes = 10), one at a time and in pipelined batches — every one must be
+// answered, so every token taken must have come back
+func c20Long(r *gen.Rng, o *out.W) {
+	w := newWorld(o, "C20", 10, 100, nil)
+	c := w.Conn()
+	w.Connect(c, "L", r.Bool(), nil, 0, "", "")
+	w.mustSurvive[c] = true
+	kinds := []string{"sub", "unsub", "pub1", "pub2", "ping"}
+	focus := kinds[r.Intn(len(kinds))]
+	n := 12 + r.Intn(14)
+	for i := 0; i < n && w.alive(c); i++ {
+		k := focus
+		if r.Intn(4) == 0 {
+			k = kinds[r.Intn(len(kinds))]
+		}
+		switch k {
+		case "sub":
+			w.Subscribe(c, packet.Subscription{Topic: fmt.Sprintf("l/%d", r.Intn(4)), QOS: packet.QOS(r.Intn(3))})
+		case "unsub":
+			w.Unsubscribe(c, fmt.Sprintf("l/%d", r.Intn(4)))
+		case "pub1":
+			w.Publish(c, "x/y", 1, false, false)
+		case "pub2":
+			w.Publish(c, "x/y", 2, false, false)
+			w.Release(c)
+		default:
+			w.Send(c, &packet.Pingreq{})
+		}
+		if r.Intn(3) == 0 {
+			w.AckAll(c)
+		}
+	}
+	w.AckAll(c)
+	w.finish()
+	o.Distinct("long " + focus + fmt.Sprint(n))
+	o.Sample(fmt.Sprintf("C20 long run: %d requests, mostly %s", n, focus))
+}
+
 // takeover storms for C13
 func c13Script(r *gen.Rng, o *out.W) {
 	w := newWorld(o, "C13", 1+r.Intn(3), 100, nil)
@@ -681,7 +720,6 @@ func c13Script(r *gen.Rng, o *out.W) {
 	o.Distinct(strings.Join(w.trace, "\n"))
 	o.Sample(fmt.Sprintf("takeover script, %d lines", len(w.trace)))
 }
-
 
 // takeover storms around a stuck old connection (C13): while the old holder of the id cannot finish
 // dying, newcomers are refused (kill timeout); none of them may be installed next to it, and later
@@ -811,6 +849,7 @@ func TestHarness(t *testing.T) {
 		})
 	case "C20":
 		sc("C20 request/response", c20Script)
+		sc("C20 long runs", c20Long)
 	default:
 		t.Fatalf("unknown property %s", *fProp)
 	}
